@@ -333,14 +333,17 @@ SeqAuths == <<"-", "good", "bad", "lf">>
 SeqBodies == <<"-", "small", "limexact", "limover", "-", "small">>
 SeqCTypes == <<"-", "json", "jsoncs", "xml", "text", "two">>
 SeqInners == <<"plain", "read", "resp", "resp1", "sleep", "e404", "read", "plain">>
+\* (the multipliers are coprime to the lengths; the combinations repeat after 2520 exchanges, from there on q shifts the
+\* components against each other)
 MixAt(k) ==
-    LET c == Nth(SeqConns, k * 3)
+    LET q == k \div 2520
+        c == Nth(SeqConns, k * 3 + q)
         b == Nth(SeqBodies, k * 11)
     IN  X(c, IF k % 5 = 0 THEN "firefox" ELSE "-", IF k % 9 = 0 /\ b = "-" THEN "1.0" ELSE "1.1",
-          Nth(<<"GET", "POST", "PUT", "POST">>, k * 5), IF k % 4 = 0 THEN "absolute" ELSE "origin",
-          IF IsTLS(c) THEN Nth(SeqTLSHosts, k * 7) ELSE Nth(SeqPlainHosts, k * 7),
-          Nth(SeqPaths, k * 13), Nth(SeqQueries, k * 17), Nth(SeqXIns, k * 19), Nth(SeqCookies, k * 23), Nth(SeqAuths, k * 29),
-          b, Nth(SeqCTypes, k * 31), b # "-" /\ k % 3 = 0 /\ ~(k % 9 = 0), Nth(SeqInners, k * 37))
+          Nth(<<"GET", "POST", "PUT", "POST">>, k * 5 + q), IF k % 4 = 0 THEN "absolute" ELSE "origin",
+          IF IsTLS(c) THEN Nth(SeqTLSHosts, k * 7 + q) ELSE Nth(SeqPlainHosts, k * 7 + q),
+          Nth(SeqPaths, k * 13 + q), Nth(SeqQueries, k * 17 + 2 * q), Nth(SeqXIns, k * 19 + 3 * q), Nth(SeqCookies, k * 23 + q),
+          Nth(SeqAuths, k * 29 + 2 * q), b, Nth(SeqCTypes, k * 31 + q), b # "-" /\ k % 3 = 0 /\ ~(k % 9 = 0), Nth(SeqInners, k * 37 + 3 * q))
 FamMix == {MixAt(k) : k \in 1..NMix}
 
 Exchanges == {x \in FamURL \cup FamHost \cup FamHdr \cup FamBody \cup FamResp \cup FamMix : WellFormed(x)}
